@@ -56,10 +56,12 @@ prop("C16", "Priced by its own schedule entry", BF, [],
      bounded=[{"name": "check.ForZeroUintFields", "cmd": "tools/bounded_ifzero.sh", "bound": "exhaustive: all 2^6 + 2^16 zero/non-zero patterns of BaseOperationCost and BuiltInCost on the real code"}])
 prop("C17", "A failing dependency is never reported as success", BF, [],
      "Every listed dependency call sets the ghost flag 'failed' when it returns a non-nil (unconstrained, symbolic) error; every entry point proves err == nil => failed unchanged, so every k-th-call fault is covered by the universal quantifier.")
-prop("C18", "Activation follows confirmed epochs", ["contracts:^builtInFunctions\\.(\\(\\*baseEnabled\\)|\\(baseAlwaysActive\\)|lemmaActivation)"], ["safety"],
-     "EpochConfirmed sets the flag to (epoch >= activationEpoch) from the current notification only; IsActive reads it; lemma over two notifications. Not covered: the factory registry postcondition.")
-prop("C19", "Concurrency discipline", BF, ["lock"],
-     "Guarded-by discipline proved per function: cost fields are written only with the write lock held and read only with a lock held, every Lock/RLock is taken on a free lock and released on every path (ghost lock state). Linearizability / data-race freedom follow by the standard meta-theorems (A6, A16). Not covered: MutexMap and atomic wrappers (interface-keyed map outside the engine's subset).")
+prop("C18", "Activation follows confirmed epochs", ["contracts:^builtInFunctions\\.(\\(\\*baseEnabled\\)|\\(baseAlwaysActive\\)|lemmaActivation|NewBuiltInFunctionsFactory|\\(\\*builtInFuncFactory\\)\\.CreateBuiltInFunctionContainer)"], ["safety"],
+     "EpochConfirmed sets the flag to (epoch >= activationEpoch) from the current notification only; IsActive reads it; lemma over two notifications. Factory: NewBuiltInFunctionsFactory copies every argument into the factory; CreateBuiltInFunctionContainer yields a container holding exactly the 23 protocol names, each bound to the implementation type of that name, configured with the factory's arguments (user-name change switch, freeze/wipe/pause/set flags, activation epoch) and priced by its own schedule entry. The container is seen through its interface (ghost registry; the in-repo implementation over MutexMap is assumed to implement put-if-absent, see C19).",
+     extra_assume=["registry.spec: BuiltInFunctionContainer.Add is put-if-absent, NewBuiltInFunctionContainer returns an empty container (assumed; interface-keyed map outside the subset)", "EpochNotifier.RegisterNotifyHandler has no effect on the checked state (no contract: havocked result, noted)"])
+prop("C19", "Concurrency discipline", BF + ["contracts:^container\\.", "contracts:^atomic\\."], ["lock", "safety", "frame"],
+     "Per function: (guarded) lock-protected fields and the contents of lock-protected maps are read only with the lock held and written only with it held for writing; (lock) every Lock/RLock is taken on a free lock and released on every path; (atomic) all accesses of one execution to data under one lock lie in a SINGLE critical section - so a built-in function reads its prices from one schedule only and a map operation is not check-then-act - and a field declared atomic is touched by exactly one sync/atomic operation per call and never by a plain access. MutexMap: every method has exactly the effect of the sequential map operation (functional contracts over the map contents, interface keys included); atomic Flag/Counter/Int64/Uint32/Uint64/String: sequential effect of the single operation. Linearizability and absence of lost updates follow from single-section / single-operation atomicity plus the sequential contracts by the standard argument for lock-based objects (A6, not machine-checked); data-race freedom from the guarded-by discipline. Not covered: functionContainer's own methods beyond what they inherit from MutexMap (type assertions on stored values), GasScheduleChange against itself, liveness.",
+     extra_assume=["A6 sync.RWMutex provides mutual exclusion, sync/atomic operations are atomic; lock-based linearizability meta-theorem", "deps.spec: sync/atomic.Value Store/Load as a ghost cell"])
 prop("C20", "Shared VM helper types obey their laws",
      ["vmcommon.init", "re:^vmcommon\\.(Is|SafeSub|CodeMetadataFromBytes|lemma)", "vmcommon.(*CodeMetadata).ToBytes", "vmcommon.(*OutputAccount).MergeOutputAccounts", "vmcommon.(*OutputAccount).MergeStorageUpdates"],
      ["safety", "frame"],
